@@ -13,6 +13,9 @@ OWNED = {
     "C11": {"C11", "CRASH"},
     "C12": {"C12", "CRASH"},
     "C19": {"C19"},
+    "C02": {"C02", "CRASH"},
+    "C06": {"C06"},
+    "C05": {"C05"},
 }
 
 
@@ -49,6 +52,13 @@ def jobs_for(prop, tier, seed):
         for n in fs_configs() + ss_configs():
             cfg = SCfg(n)
             out.append((n, "hints", setgen.hint_enumeration(cfg, 8 if th else 6), 400))
+    elif prop in ("C02", "C06", "C05"):
+        for n in setgen.CONFIGS:
+            cfg = SCfg(n)
+            if prop == "C02" and not cfg.instrumented:
+                continue
+            out.append((n, "random", setgen.random_script(cfg, seed + 3, 1500 if th else 150, 50), None))
+            out.append((n, "bulk", setgen.bulk_script(cfg, seed + 3, 200 if th else 30), None))
     elif prop == "C19":
         for n in setgen.CONFIGS:
             cfg = SCfg(n)
